@@ -386,10 +386,16 @@ def reference_namespace(r):
     def ref_names(x):
         return {rec._desc.name} if x is rec else ["UnknownRecord"]
 
+    def need_record(x):
+        if x is not rec:
+            raise AttributeError("not a record")
+
     def ref_has_field(x, field):
+        need_record(x)
         return field in fieldnames
 
     def ref_field_equals(x, fields, strings, nocase=True):
+        need_record(x)
         want = [ref_lower(s) for s in strings] if nocase else strings
         for f in fields:
             v = get(f)
@@ -403,6 +409,7 @@ def reference_namespace(r):
         return False
 
     def ref_field_contains(x, fields, strings, nocase=True, word_boundary=False):
+        need_record(x)
         want = [ref_lower(s) for s in strings] if nocase else strings
         for f in fields:
             v = get(f)
@@ -422,6 +429,7 @@ def reference_namespace(r):
         return False
 
     def ref_field_regex(x, fields, regex):
+        need_record(x)
         pat = re.compile(regex)
         for f in fields:
             v = get(f)
